@@ -196,6 +196,8 @@ func execute(req *Req) *Res {
 			os = inst.ComputeS(feedSnapshots(rec, req, lens[0], data))
 		}
 		r := drainOuts(rec, os, req)
+		// goroutines spawned late (drains started when a stage leaves its loop) still report their wiring
+		census()
 		Uninstall()
 		return r, rec
 	}
@@ -268,6 +270,7 @@ func execute(req *Req) *Res {
 			werr = report.WriteToWriter(&buf)
 		}()
 		wg.Wait()
+		census()
 		Uninstall()
 		if werr != nil {
 			res.Err = "report: " + werr.Error()
